@@ -58,7 +58,14 @@ func (f funcMapType[V]) Iter(yield func(key string, v Value) bool) {
 }
 
 func (f funcMapType[V]) Size() int {
-	return len(f.mff.keys)
+	// only the keys which are available are counted, see Iter
+	size := 0
+	for _, k := range f.mff.keys {
+		if _, ok := f.mff.fMap(f.value, k); ok {
+			size++
+		}
+	}
+	return size
 }
 
 type emptyMapStorage struct {
